@@ -8,6 +8,9 @@ import xml.etree.ElementTree as ET
 
 def main():
     n = None
+    repo = "/repo"
+    if "--repo" in sys.argv:
+        repo = sys.argv[sys.argv.index("--repo") + 1]
     if "-n" in sys.argv:
         n = sys.argv[sys.argv.index("-n") + 1]
     base = json.load(open("/root/.vp/BASELINE.json"))
@@ -18,7 +21,7 @@ def main():
     if n:
         cmd += ["-n", n]  # faster, but a few plot tests are order dependent; serial is the reference
     env = dict(os.environ); env.pop("PYAUTOARRAY_VERIF", None)
-    subprocess.run(cmd, cwd="/repo", env=env, stdout=subprocess.DEVNULL, stderr=subprocess.DEVNULL)
+    subprocess.run(cmd, cwd=repo, env=env, stdout=subprocess.DEVNULL, stderr=subprocess.DEVNULL)
     passed = set()
     for tc in ET.parse(path).getroot().iter("testcase"):
         if not any(ch.tag in ("failure", "error", "skipped") for ch in tc):
@@ -31,15 +34,15 @@ def main():
             mod, name = m.split("::")
             ids.append(mod.replace(".", "/") + ".py::" + name)
         subprocess.run(["/venv/bin/python", "-m", "pytest", "-q", "-p", "no:cacheprovider", "--junitxml=" + path] + ids,
-                       cwd="/repo", env=env, stdout=subprocess.DEVNULL, stderr=subprocess.DEVNULL)
+                       cwd=repo, env=env, stdout=subprocess.DEVNULL, stderr=subprocess.DEVNULL)
         for tc in ET.parse(path).getroot().iter("testcase"):
             if not any(ch.tag in ("failure", "error", "skipped") for ch in tc):
                 passed.add(tc.get("classname") + "::" + tc.get("name"))
         missing = sorted(want - passed)
     # the suite rewrites a few tracked .fits fixtures; restore them (never touches source files)
-    subprocess.run("git -C /repo status --porcelain | awk '$1==\"M\" && $2 ~ /^test_autoarray\\/.*\\.fits$/ {print $2}' | xargs -r git -C /repo checkout --",
+    subprocess.run("git -C %s status --porcelain | awk '$1==\"M\" && $2 ~ /^test_autoarray\\/.*\\.fits$/ {print $2}' | xargs -r git -C %s checkout --" % (repo, repo),
                    shell=True)
-    subprocess.run(["git", "-C", "/repo", "clean", "-fdq", "test_autoarray"])
+    subprocess.run(["git", "-C", repo, "clean", "-fdq", "test_autoarray"])
     os.unlink(path)
     print("stable_pass=%d passed_now=%d missing=%d" % (len(want), len(passed & want), len(missing)))
     for m in missing[:50]:
